@@ -6,7 +6,7 @@ FINDINGS = [
          site="cdd/compound/openapi/gen_openapi.py:openapi_bulk (schema key derivation)",
          example="model class UserProfile, crud 'R': paths refer to #/components/schemas/UserProfile, components.schemas has 'Userprofile'"),
     dict(id="C16-inferred-id-leaks-ast-call", property="C16",
-         pattern=dict(check="openapi", via="pipeline", clause="not_serialisable", pk={"in": ["id", "explicit,id"]}),
+         pattern=dict(check="openapi", via="pipeline", clause="not_serialisable", pk_has_id=True),
          what="a model whose primary key is the inferred `id = Column(Integer, primary_key=True, server_default=Identity())` puts the parsed server_default (an ast.Call object) "
          "into the schema: the document is not JSON-serialisable (same root as C14 R-sqlalchemy-server-default-key)",
          site="cdd/sqlalchemy/utils/parse_utils.py:column_call_to_param ('server_default' kept as an AST node at the top level of the parameter)",
